@@ -17,10 +17,13 @@ CONSTANTS
   NodeV,        \* [PolicyKinds -> Int]            value of the node-level policy of each kind
   DegV,         \* [PolicyKinds -> Int]            value written for the egress degree when it has its own setting
   LoadCases,    \* set of [lib, elt]               node-level policy kinds written in library entry / element
-  DegKinds,     \* subset of PolicyKinds \cup {"none"}   kind of the egress degree's own setting
+  DegKinds,     \* subset of PolicyKinds \cup {"none", "pch0"}   kind of the egress degree's own setting
   Crossings,    \* subset of {"add", "drop", "express"}
   Deltas,       \* set of Int                      input power of a channel relative to its target
   OffsetVecs,   \* set of [Chan -> Int]            per-channel power offsets (delta_pdb_per_channel)
+  ProfKinds,    \* subset of {"single", "firstListed", "explicit"}: how the library lists the profiles of the crossed path
+                \*   type: one profile; two profiles NOT listed by increasing id, none chosen in the element (the first
+                \*   listed applies); two profiles and the element names the second one for this pair of degrees
   MaxLossVecs   \* set of [Chan -> Int]            path loss (roadm-maxloss) of the crossed internal path, PER CHANNEL:
                 \*                                 the loss is configured per frequency range
 
@@ -35,24 +38,37 @@ N == Cardinality(Chan)
 
 InForce(c)    == PolicyInForce(c.lib, c.elt)
 NodePolicy(c) == LET k == CHOOSE x \in InForce(c) : TRUE IN [kind |-> k, v |-> NodeV[k]]
+\* "pch0": the egress degree is set to exactly 0 dBm per channel (a value, not an absent setting)
+DegKindOf(d)  == IF d = "pch0" THEN "pch" ELSE d
+DegValueOf(d) == IF d = "pch0" THEN 0 ELSE DegV[d]
 DegSetting(c) == IF c.degKind = "none" THEN [has |-> FALSE, kind |-> "pch", v |-> 0]
-                 ELSE [has |-> TRUE, kind |-> c.degKind, v |-> DegV[c.degKind]]
+                 ELSE [has |-> TRUE, kind |-> DegKindOf(c.degKind), v |-> DegValueOf(c.degKind)]
+\* the profiles of the crossed path type as listed in the library: the second one (lower id) loses 1.5 dB more
+Extra == 1500000
+Profiles(c) == IF c.prof = "single" THEN <<[id |-> 1, type |-> c.crossing, loss |-> c.maxloss]>>
+               ELSE <<[id |-> 7, type |-> c.crossing, loss |-> c.maxloss],
+                      [id |-> 2, type |-> c.crossing, loss |-> [k \in Chan |-> c.maxloss[k] + Extra]]>>
+ExplicitId(c) == IF c.prof = "explicit" THEN 2 ELSE NONE
+PathLoss(c)   == ProfileFor(Profiles(c), c.crossing, ExplicitId(c)).loss
 ChanRec(c, k, pin) == [baudDb |-> ChanType[k].baudDb, slotDb |-> ChanType[k].slotDb, offset |-> c.offset[k],
-                       in |-> pin, maxloss |-> c.maxloss[k]]
+                       in |-> pin, maxloss |-> PathLoss(c)[k]]
 
 Cfgs == [lib : {l.lib : l \in LoadCases}, elt : {l.elt : l \in LoadCases}, degKind : DegKinds, crossing : Crossings,
-         offset : OffsetVecs, maxloss : MaxLossVecs, delta : [Chan -> Deltas]]
+         offset : OffsetVecs, maxloss : MaxLossVecs, prof : ProfKinds, delta : [Chan -> Deltas]]
 
 \* one initial state per case; rejected configurations are not multiplied by the crossing grid
 Init == /\ phase = "cfg"
         /\ last = NoCross
         /\ cfg \in Cfgs
         /\ [lib |-> cfg.lib, elt |-> cfg.elt] \in LoadCases
+        \* the profile layouts are explored on the plain configuration only (library policy, no degree setting, no offsets)
+        /\ cfg.prof # "single" => (cfg.elt = {} /\ cfg.degKind = "none" /\ \A k \in Chan : cfg.offset[k] = 0)
         /\ ~ConfigAccepted(cfg.lib, cfg.elt) =>
               /\ cfg.degKind = CHOOSE d \in DegKinds : TRUE
               /\ cfg.crossing = CHOOSE x \in Crossings : TRUE
               /\ cfg.offset = CHOOSE o \in OffsetVecs : TRUE
               /\ cfg.maxloss = CHOOSE m \in MaxLossVecs : TRUE
+              /\ cfg.prof = "single"
               /\ cfg.delta = CHOOSE d \in [Chan -> Deltas] : TRUE
         /\ pch = [k \in Chan |-> 0]
 
@@ -98,15 +114,17 @@ NeverAmplifies == Crossed => \A k \in 1..N : last.out[k] <= last.in[k]
 NeverAmplifiesStep == [][phase' = "out" => \A k \in Chan : pch'[k] <= pch[k]]_vars
 \* a channel that arrives with enough power leaves exactly at target + offset ...
 EqualisedToTarget == Crossed => \A k \in 1..N :
-                        last.in[k] - cfg.maxloss[k] >= last.tgt[k] + cfg.offset[k] => last.out[k] = last.tgt[k] + cfg.offset[k]
+                        last.in[k] - PathLoss(cfg)[k] >= last.tgt[k] + cfg.offset[k] => last.out[k] = last.tgt[k] + cfg.offset[k]
 \* ... one that arrives below it is only attenuated by the path loss OF ITS OWN frequency range (left unequalised,
 \* never boosted)
 BelowTargetLossOnly == Crossed => \A k \in 1..N :
-                        last.in[k] - cfg.maxloss[k] < last.tgt[k] + cfg.offset[k] => last.out[k] = last.in[k] - cfg.maxloss[k]
+                        last.in[k] - PathLoss(cfg)[k] < last.tgt[k] + cfg.offset[k] => last.out[k] = last.in[k] - PathLoss(cfg)[k]
+\* the path loss is the one of the profile named for the pair of degrees, else of the first listed profile of the type
+PathLossByListing == Crossed => PathLoss(cfg) = (IF cfg.prof = "explicit" THEN [k \in Chan |-> cfg.maxloss[k] + Extra] ELSE cfg.maxloss)
 \* the target is the egress degree's setting if one exists (of whatever kind), else the node's
 TargetIsDegreeElseNode == Crossed => \A k \in 1..N :
                         last.tgt[k] = IF cfg.degKind # "none"
-                                      THEN Level([kind |-> cfg.degKind, v |-> DegV[cfg.degKind]], ChanRec(cfg, k, 0))
+                                      THEN Level([kind |-> DegKindOf(cfg.degKind), v |-> DegValueOf(cfg.degKind)], ChanRec(cfg, k, 0))
                                       ELSE Level(NodePolicy(cfg), ChanRec(cfg, k, 0))
 \* pch / psd x baud rate / psw x slot width
 LevelByKind == Crossed /\ cfg.degKind = "none" => \A k \in 1..N :
